@@ -86,9 +86,9 @@ func c12RunHistory(m *vk.M, idx int, kind string, w *c12World, side *c12Side, he
 	w.reset()
 	h = &c12Hist{m: m, idx: idx, side: side, w: w, st: st, header: header}
 	if kind == "kv" {
-		h.prefix, h.eprefix = "C12:kv:diff", "C12:kv:effect"
+		h.prefix, h.eprefix, h.wprefix = "C12:kv:diff", "C12:kv:effect", "C12:kv:wire"
 	} else {
-		h.prefix, h.eprefix = "C12:diff", "C12:effect"
+		h.prefix, h.eprefix, h.wprefix = "C12:diff", "C12:effect", "C12:wire"
 	}
 	h.g = &c12Gen{r: r, keys: c12Keys(r), mrB: w.mrB, kv: kind == "kv", blockEmpty: blockEmpty}
 	h.header += ";keys=" + strings.Join(h.g.keys, ",")
